@@ -88,4 +88,95 @@ theorem get?_isSome_of_mem_keys {b : Book V} {k : String} (h : k ∈ Book.keys b
       · obtain ⟨v, hv⟩ := ih (by simpa [Book.keys] using h)
         exact ⟨v, by simp [hk, hv]⟩
 
+/-! ### sums over a book -/
+
+/-- keys pairwise distinct, as a proposition -/
+def Distinct : Book V → Prop
+  | [] => True
+  | (k, _) :: t => (∀ v, (k, v) ∉ t) ∧ Distinct t
+
+theorem get?_none_of_distinct_head {k : String} {t : Book V} (h : ∀ v, (k, v) ∉ t) : Book.get? t k = none :=
+  get?_none_of_not_mem_keys h
+
+theorem sumBy_set_new (f : V → Nat) (b : Book V) (k : String) (v : V) (h : b.get? k = none) :
+    Book.sumBy f (b.set k v) = Book.sumBy f b + f v := by
+  induction b with
+  | nil => simp [Book.set, Book.sumBy]
+  | cons hd t ih =>
+    obtain ⟨k', v'⟩ := hd
+    rw [get?_cons] at h
+    by_cases hk : k' = k
+    · simp [hk] at h
+    · simp only [hk, if_false] at h
+      unfold Book.set
+      simp only [hk, if_false, Book.sumBy, ih h]
+      omega
+
+theorem sumBy_del_none (f : V → Nat) (b : Book V) (k : String) (h : b.get? k = none) :
+    Book.sumBy f (b.del k) = Book.sumBy f b := by
+  induction b with
+  | nil => rfl
+  | cons hd t ih =>
+    obtain ⟨k', v'⟩ := hd
+    rw [get?_cons] at h
+    by_cases hk : k' = k
+    · simp [hk] at h
+    · simp only [hk, if_false] at h
+      unfold Book.del
+      simp only [hk, if_false, Book.sumBy, ih h]
+
+theorem sumBy_del (f : V → Nat) (b : Book V) (k : String) (old : V) (hd : Distinct b)
+    (h : b.get? k = some old) : Book.sumBy f (b.del k) + f old = Book.sumBy f b := by
+  induction b with
+  | nil => simp at h
+  | cons hd' t ih =>
+    obtain ⟨k', v'⟩ := hd'
+    rw [get?_cons] at h
+    obtain ⟨hnot, hdt⟩ := hd
+    by_cases hk : k' = k
+    · subst hk
+      simp only [if_true, Option.some.injEq] at h
+      subst h
+      unfold Book.del
+      simp only [if_true, Book.sumBy]
+      rw [sumBy_del_none f t k' (get?_none_of_distinct_head hnot)]
+      omega
+    · simp only [hk, if_false] at h
+      unfold Book.del
+      simp only [hk, if_false, Book.sumBy]
+      have := ih hdt h
+      omega
+
+theorem sumBy_set_old (f : V → Nat) (b : Book V) (k : String) (old v : V) (hd : Distinct b)
+    (h : b.get? k = some old) : Book.sumBy f (b.set k v) + f old = Book.sumBy f b + f v := by
+  induction b with
+  | nil => simp at h
+  | cons hd' t ih =>
+    obtain ⟨k', v'⟩ := hd'
+    rw [get?_cons] at h
+    obtain ⟨hnot, hdt⟩ := hd
+    by_cases hk : k' = k
+    · subst hk
+      simp only [if_true, Option.some.injEq] at h
+      subst h
+      unfold Book.set
+      simp only [if_true, Book.sumBy]
+      omega
+    · simp only [hk, if_false] at h
+      unfold Book.set
+      simp only [hk, if_false, Book.sumBy]
+      have := ih hdt h
+      omega
+
+theorem distinct_of_bool {b : Book V} (h : Spec.distinctKeys b = true) : Distinct b := by
+  induction b with
+  | nil => trivial
+  | cons hd t ih =>
+    obtain ⟨k, v⟩ := hd
+    unfold Spec.distinctKeys at h
+    simp only [Bool.and_eq_true, List.all_eq_true, bne_iff_ne, ne_eq] at h
+    refine ⟨?_, ih h.2⟩
+    intro v' hm
+    exact h.1 (k, v') hm rfl
+
 end Ats.Book
